@@ -23,6 +23,21 @@ fn mask(id: &[u8; 32], iv: &[u8], data: &mut [u8]) {
     c.apply_keystream(data);
 }
 
+/// A masking iv; every fourth one has a counter (low 64 bits, big endian) whose low 32 bits overflow while the header is masked -
+/// the carry must propagate (AES-CTR with a 64-bit big-endian counter); the top byte of the counter is kept off 0xff so that a
+/// 64-bit and a 128-bit counter agree.
+fn fresh_iv(rng: &mut StdRng) -> Vec<u8> {
+    let mut iv: Vec<u8> = bytes!(rng, 16);
+    if rng.gen_range(0..4) == 0 {
+        iv[8] &= 0x7f;
+        iv[12] = 0xff;
+        iv[13] = 0xff;
+        iv[14] = 0xff;
+        iv[15] = 0xf8 | (iv[15] & 7);
+    }
+    iv
+}
+
 /// The logical content of a packet (what the property calls "the packet").
 #[derive(Clone, Debug, Default)]
 struct Fields {
@@ -162,7 +177,7 @@ struct Built {
 fn concretise(c: &Value, v: u64, rng: &mut StdRng) -> Built {
     let shape = util::s(c, "shape");
     let local = id32(rng);
-    let mut f = Fields { iv: bytes!(rng, 16), nonce: bytes!(rng, 12), ..Default::default() };
+    let mut f = Fields { iv: fresh_iv(rng), nonce: bytes!(rng, 12), ..Default::default() };
     let mut extra_auth: Vec<u8> = vec![]; // bytes of the auth-data that belong to no field of a well-formed packet
     let mut rec_cut = 0usize;
     match shape {
@@ -353,7 +368,7 @@ fn observe(local: &[u8; 32], x: &[u8]) -> Value {
 // ------------------------------------------------------------------------------- unconstrained
 /// A random well-formed packet (all three kinds, signature / key sizes 0..255, with / without record).
 fn random_fields(rng: &mut StdRng) -> Fields {
-    let mut f = Fields { iv: bytes!(rng, 16), nonce: bytes!(rng, 12), ..Default::default() };
+    let mut f = Fields { iv: fresh_iv(rng), nonce: bytes!(rng, 12), ..Default::default() };
     match rng.gen_range(0..3) {
         0 => {
             f.kind = "msg";
